@@ -306,3 +306,96 @@ Proof.
   - pose proof (register_unidirectional_np cfg o w Hc).
     destruct (register_unidirectional cfg o w); [discriminate|discriminate|congruence].
 Qed.
+
+(* ---------------------------------------------------------------- "never hangs": the section loops *)
+(* a name that was read successfully ends strictly after the position it started at: just past its last
+   label, or just past its first compression pointer *)
+Lemma read_name_fuel_progress : forall fuel msg pos labels nptr seekto n p,
+  read_name_fuel fuel msg pos labels nptr seekto = Some (Ok (n, p)) ->
+  (nptr = 0 -> pos < p) /\ (0 < nptr -> p = seekto).
+Proof.
+  induction fuel as [|f IH]; intros msg pos labels nptr seekto n p H; cbn [read_name_fuel] in H; [discriminate|].
+  destruct (read_u8 msg pos) as [lt|]; [|inversion H].
+  destruct (lt / 64 =? 0).
+  - destruct (lt mod 64 =? 0) eqn:El.
+    + inversion H as [H1]. destruct (new_name labels); cbn in H1; try discriminate.
+      inversion H1; subst. destruct (0 <? nptr) eqn:E0; split; intros; lia.
+    + destruct (read_bytes msg (pos + 1) (lt mod 64)); [|inversion H].
+      apply IH in H as [H0 H1]. split; intros; [specialize (H0 H); lia|auto].
+  - destruct (lt / 64 =? 3); [|inversion H].
+    destruct (read_u8 msg (pos + 1)); [|inversion H].
+    destruct (pointer_limit <? nptr + 1); [inversion H|].
+    apply IH in H as [_ H1]. assert (0 < nptr + 1) as Hp by lia. specialize (H1 Hp).
+    destruct (nptr =? 0) eqn:E0; split; intros; lia.
+Qed.
+
+Lemma read_name_progress : forall msg pos n p, read_name msg pos = Ok (n, p) -> pos < p.
+Proof.
+  intros msg pos n p. unfold read_name.
+  destruct (read_name_fuel (name_fuel msg) msg pos [] 0 0) as [r|] eqn:E; [|discriminate].
+  intros; subst. apply read_name_fuel_progress in E as [H _]. auto.
+Qed.
+
+Lemma read_u16_some_le : forall msg p v, read_u16 msg p = Some v -> p + 2 <= blen msg.
+Proof.
+  intros msg p v. unfold read_u16, read_bytes. cbn [N.eqb].
+  destruct (p + 2 <=? blen msg) eqn:E; [lia|discriminate].
+Qed.
+
+Lemma read_question_progress : forall msg pos q p, read_question msg pos = Ok (q, p) -> pos < p <= blen msg.
+Proof.
+  intros msg pos q p. unfold read_question.
+  destruct (read_name msg pos) as [[n p0]| |] eqn:E; cbn [bind]; try discriminate.
+  apply read_name_progress in E.
+  destruct (read_u16 msg p0) eqn:E1; cbn [opt_eof bind]; try discriminate.
+  destruct (read_u16 msg (p0 + 2)) eqn:E2; cbn [opt_eof bind]; try discriminate.
+  apply read_u16_some_le in E2. intros H; inversion H; subst. lia.
+Qed.
+
+Lemma read_rr_progress : forall msg pos r p, read_rr msg pos = Ok (r, p) -> pos < p.
+Proof.
+  intros msg pos r p. unfold read_rr.
+  destruct (read_name msg pos) as [[n p0]| |] eqn:E; cbn [bind]; try discriminate.
+  apply read_name_progress in E.
+  repeat match goal with
+         | |- bind (opt_eof ?x) _ = _ -> _ => destruct x; cbn [opt_eof bind]; try discriminate
+         end.
+  intros H; inversion H; subst. lia.
+Qed.
+
+(* the loops over the header's counts (up to 65535 each) stop at the first failed read, and every successful
+   read moves forward: with a reader that never passes the end, at most one entry per remaining byte *)
+Lemma read_many_bounded : forall {A} (rd : bytes -> N -> res (A * N)) count msg pos acc l e p,
+  (forall m q a q', rd m q = Ok (a, q') -> q < q' <= blen m) ->
+  pos <= blen msg ->
+  read_many rd count msg pos acc = Ok (l, e, p) ->
+  N.of_nat (length l) + pos <= N.of_nat (length acc) + p /\ p <= blen msg.
+Proof.
+  intros A rd count. induction count as [|k IH]; intros msg pos acc l e p Hrd Hpos H; cbn in H.
+  - inversion H; subst. lia.
+  - destruct (rd msg pos) as [[a p1]|e1|] eqn:E; [| |discriminate].
+    + apply Hrd in E. apply IH in H; auto; [|lia]. rewrite app_length in H. cbn in H. lia.
+    + inversion H; subst. lia.
+Qed.
+
+Theorem questions_bounded_by_length : forall msg count l e p,
+  read_many read_question count msg 12 [] = Ok (l, e, p) -> 12 <= blen msg ->
+  N.of_nat (length l) <= blen msg.
+Proof.
+  intros msg count l e p H H12.
+  apply (read_many_bounded read_question) in H; [cbn in H; lia| |lia].
+  intros. eapply read_question_progress; eauto.
+Qed.
+
+(* resource records: each successful read moves forward (the reader may stand past the end only after a
+   zero-length RDATA, and then the next read fails), so the loop runs at most once per position *)
+Lemma read_many_rr_bounded : forall count msg pos acc l e p,
+  read_many read_rr count msg pos acc = Ok (l, e, p) ->
+  N.of_nat (length l) + pos <= N.of_nat (length acc) + p.
+Proof.
+  induction count as [|k IH]; intros msg pos acc l e p H; cbn in H.
+  - inversion H; subst. lia.
+  - destruct (read_rr msg pos) as [[a p1]|e1|] eqn:E; [| |discriminate].
+    + apply read_rr_progress in E. apply IH in H. rewrite app_length in H. cbn in H. lia.
+    + inversion H; subst. lia.
+Qed.
